@@ -228,3 +228,5 @@ PROP = Prop(
     assumptions=["int-dtype scores are small integers (exact in float64)",
                  "pointwise_cm with size-0 threshold axes is exercised under C10"],
 )
+
+RULE_EXTRA = ('score containers float64 / float32 / float16 / Python lists / one class int or float32 next to a float64 class / uint8-uint16-bool quantised scores; easy counts up to 2^40; thresholds as nested lists, Fortran-ordered arrays and float32/float16 arrays.')
